@@ -56,7 +56,7 @@ try:
     rc2, out2 = sh(["bash", "-c", tcmd], cwd=wt, timeout=7200)
     failed = re.findall(r"test (\S+) \.\.\. FAILED", out2)
     meta["existing_tests_with_patch"] = {"cmd": tcmd, "failed": failed, "tail": out2[-1200:]}
-    tests_ok = all("rsp_ql_dstream_semantics" in f for f in failed) and "error" not in out2 and "test result" in out2
+    tests_ok = all("rsp_ql_dstream_semantics" in f for f in failed) and "error[" not in out2 and "could not compile" not in out2 and "test result" in out2
 finally:
     sh(["git", "-C", "/repo", "worktree", "remove", "--force", wt])
 
